@@ -199,6 +199,16 @@ class Interp06(Interp04):
         Hv = H @ chain.tensors_dense(x).astype(complex)
         if np.linalg.norm(Hv) <= 1e-8:
             return
+        if s.get("fam") == "pc" and s["kind"] in ("pc_tdrk", "pc_tdrk4"):
+            # a Runge-Kutta stage (state or derivative) that vanishes exactly is a zero MPS, which the library refuses by its
+            # zero-tensor assertion (DESIGN §3.4): e.g. imaginary time, midpoint rule, (1 - tau H/2) psi = 0
+            from renormalizer.utils.rk import RungeKutta
+            aa = evo.RK4_A if s["kind"] == "pc_tdrk4" else RungeKutta(s["rk"]).tableau[0]
+            zz = (-ins["dt"] if ins["imag"] else -1j * ins["dt"])
+            v0 = chain.tensors_dense(x).astype(complex)
+            if evo.rk_stage_min_norm(aa, zz * H, v0) <= 1e-8 * np.linalg.norm(v0):
+                self.r.classes.append("evolve.pc.vanishing_stage_rejected")
+                return
         if s.get("fam") == "pc":
             # propagate-and-compress forms H^k psi explicitly; a power that vanishes exactly (nilpotent action on this state) is a
             # zero MPS, which the library refuses by assertion (DESIGN §3.4): not generated
